@@ -169,6 +169,12 @@ mod derived {
 	/// zero-sized field with a non-empty encoding inside a transparent struct
 	#[derive(Encode, Decode, DecodeWithMemTracking, Debug, PartialEq, Clone, Copy)]
 	pub enum EV1 { V1 }
+	impl Reg for EV1 {
+		fn name() -> String { "EV1".into() }
+		fn descr() -> Value { json!({"k":"enum","sz":0,"vs":[{"i":0,"ts":[]}]}) }
+		fn gen(_g: &mut G) -> Self { EV1::V1 }
+		fn abs(&self) -> Value { json!({"i":1,"fs":[]}) }
+	}
 	#[derive(Encode, Decode, DecodeWithMemTracking, Debug, PartialEq, Clone, Copy)]
 	#[repr(transparent)]
 	pub struct STranspZ { pub payload: [u8; 4], pub version: EV1 }
